@@ -1,2 +1,137 @@
 #!/usr/bin/env python3
-print("selftest: see /verif/tools (being built)")
+"""Self-tests of the verification machinery (not part of the registered checks).
+
+  selftest.py determinism [--seeds N]       every simulated run twice, in fresh processes with
+                                            different slicing: identical digests required
+  selftest.py sensitivity [pattern ...]     every patch in /verif/mutants and /verif/seeded is
+                                            applied to a scratch worktree of /repo (outside /repo
+                                            and /verif); the check named by the patch's prefix must
+                                            exit 1 with a VIOLATION line; the scratch tree and its
+                                            build output are removed afterwards
+Results are written to /verif/selftest_results.json.
+"""
+import glob, json, os, shutil, subprocess, sys, time
+
+VERIF = "/verif"
+
+
+def sh(cmd, **kw):
+    return subprocess.run(cmd, stdout=subprocess.PIPE, stderr=subprocess.STDOUT, **kw)
+
+
+def determinism(args):
+    n = 2000
+    if "--seeds" in args:
+        n = int(args[args.index("--seeds") + 1])
+    subprocess.run(["cargo", "build", "--release", "--offline", "-p", "qsim", "-p", "iosim"], cwd=VERIF + "/sim", check=True,
+                   stdout=subprocess.DEVNULL, stderr=subprocess.DEVNULL)
+    qsim = VERIF + "/sim/target/release/qsim"
+    ok = True
+    report = {}
+    for prop in ("C05", "C22", "C23"):
+        digests = []
+        for workers in (16, 3):
+            per = (n + workers - 1) // workers
+            procs = []
+            for w in range(workers):
+                first = w * per
+                cnt = max(0, min(per, n - first))
+                if cnt == 0:
+                    continue
+                procs.append(subprocess.Popen([qsim, "digest", "--property", prop, "--seed", "7", "--first", str(first), "--runs", str(cnt)],
+                                              stdout=subprocess.DEVNULL, stderr=subprocess.PIPE))
+            lines = {}
+            for p in procs:
+                out = p.communicate()[1].decode()
+                for line in out.splitlines():
+                    parts = line.split(" ", 1)
+                    if parts[0].isdigit():
+                        lines[int(parts[0])] = parts[1]
+            digests.append(lines)
+        same = digests[0] == digests[1] and len(digests[0]) == n
+        diff = [i for i in digests[0] if digests[0].get(i) != digests[1].get(i)]
+        report[prop] = {"runs": n, "identical": same, "first_differences": diff[:5]}
+        print("determinism %s: %d runs x 2 executions (16 and 3 processes): %s" % (prop, n, "identical" if same else "DIFFERENT %s" % diff[:5]))
+        ok = ok and same
+    return ok, report
+
+
+def prop_of(path):
+    return os.path.basename(path).split("-")[0]
+
+
+def sensitivity(args):
+    patches = sorted(glob.glob(VERIF + "/mutants/*.diff")) + sorted(glob.glob(VERIF + "/seeded/*/patch.diff"))
+    if args:
+        patches = [p for p in patches if any(a in p for a in args)]
+    scratch = "/var/tmp/suiron-verif-selftest"
+    tree = scratch + "/tree"
+    shutil.rmtree(scratch, ignore_errors=True)
+    os.makedirs(scratch)
+    sh(["git", "-C", "/repo", "worktree", "prune"])
+    r = sh(["git", "-C", "/repo", "worktree", "add", "--detach", tree, "HEAD"])
+    if r.returncode != 0:
+        print(r.stdout.decode())
+        return False, {}
+    results = {}
+    ok = True
+    try:
+        for p in patches:
+            name = os.path.basename(os.path.dirname(p)) if p.endswith("patch.diff") else os.path.basename(p)[:-5]
+            prop = name.split("-")[0] if not p.endswith("patch.diff") else json.load(open(os.path.dirname(p) + "/meta.json"))["property"]
+            sh(["git", "-C", tree, "checkout", "--", "."])
+            a = sh(["git", "-C", tree, "apply", p])
+            if a.returncode != 0:
+                results[name] = {"property": prop, "result": "patch does not apply", "detail": a.stdout.decode()[-300:]}
+                print("sensitivity %-45s patch does not apply" % name)
+                ok = False
+                continue
+            env = dict(os.environ, VERIF_REPO=tree, VERIF_SCRATCH=scratch + "/build")
+            t0 = time.time()
+            c = sh([VERIF + "/check", prop, "quick"], env=env)
+            out = c.stdout.decode()
+            caught = c.returncode == 1 and ("VIOLATION property=%s" % prop) in out
+            classes = sorted(set(l.split(":")[1].strip().split(" ")[1] for l in out.splitlines() if l.startswith("violation: ")))
+            results[name] = {"property": prop, "exit": c.returncode, "caught": caught, "classes": classes, "wall_s": round(time.time() - t0, 1),
+                             "tail": out.splitlines()[-3:] if not caught else []}
+            print("sensitivity %-45s %-6s exit=%d %s (%.0f s)" % (name, "CAUGHT" if caught else "MISSED", c.returncode, classes, time.time() - t0))
+            ok = ok and caught
+        # and the unpatched copy must pass
+        sh(["git", "-C", tree, "checkout", "--", "."])
+        for prop in sorted(set(r["property"] for r in results.values())):
+            env = dict(os.environ, VERIF_REPO=tree, VERIF_SCRATCH=scratch + "/build")
+            c = sh([VERIF + "/check", prop, "quick"], env=env)
+            clean = c.returncode == 0
+            results["unpatched-" + prop] = {"property": prop, "exit": c.returncode, "clean": clean}
+            print("sensitivity %-45s %s exit=%d" % ("unpatched copy, " + prop, "CLEAN" if clean else "ALARM", c.returncode))
+            ok = ok and clean
+    finally:
+        sh(["git", "-C", "/repo", "worktree", "remove", "--force", tree])
+        shutil.rmtree(scratch, ignore_errors=True)
+    return ok, results
+
+
+def main():
+    if len(sys.argv) < 2:
+        print(__doc__)
+        sys.exit(2)
+    what, args = sys.argv[1], sys.argv[2:]
+    if what == "determinism":
+        ok, rep = determinism(args)
+    elif what == "sensitivity":
+        ok, rep = sensitivity(args)
+    else:
+        print(__doc__)
+        sys.exit(2)
+    path = VERIF + "/selftest_results.json"
+    try:
+        allr = json.load(open(path))
+    except Exception:
+        allr = {}
+    allr.setdefault(what, {}).update(rep)
+    json.dump(allr, open(path, "w"), indent=1, sort_keys=True)
+    sys.exit(0 if ok else 1)
+
+
+if __name__ == "__main__":
+    main()
